@@ -42,7 +42,7 @@ CLASS_OF = {
 # Appendix B, row "creators"
 REQUIRED_CLASSES = ["single file", "flat", "nested", "full-path order != per-directory order",
                     "identical files (shared root)", ">= 2 multi-piece files whose roots sort against tree order",
-                    "empty directory present"]
+                    "empty directory present"] + trees.NAME_CLASSES
 
 # ------------------------------------------------------------------------------------------------ content trees
 # node = ["F", size, salt] | ["D", [[name, node], ...]]     JSON-able; entries in ENUMERATION order.
@@ -380,6 +380,12 @@ FILE_NAMES = ["a", "a.txt", "a-b", "A", "b", "ab", "a b", "é", "z", "0", "_x", 
 DIR_NAMES = ["a", "d", "a.d", "sub dir", "Z", "é", "a-b", "0", "Data", "data", "日本", "b\\s", "payload", "xpayload", "disc..2", "..d",
              "a.."]
 PAYLOAD_NAMES = ["payload", "pay load", "päy.d", "日本", "P", "a.b-c", "payload.tar.gz"]
+# names whose TEXT and BYTES readings differ (trees.py, round 7): decomposed (NFD) Unicode, glob metacharacters, mixed case.
+# All of them are valid UTF-8 without '/', so they satisfy wf_node and go to the extracted model as well (it works on the UTF-8
+# bytes; a Python str sorts by code point = UTF-8 byte order)
+FILE_NAMES += trees.NFD_NAMES[:5] + trees.GLOB_NAMES[:6] + ["README.txt", "data.bin"]
+DIR_NAMES += trees.NFD_DIRS + trees.GLOB_DIRS[:4] + ["B"]
+PAYLOAD_NAMES += ["Album [FLAC]", "cafe\u0301", "pay*load?", "A\u030a.d"]
 OPTION_KEYS = ["announce", "comment", "private", "source", "url_list", "httpseeds"]
 OPTION_VALUES = {
     "announce": [["http://t.example/announce"], ["http://t.example/a", "udp://u.example:6969/x"], "http://str.example/ann",
@@ -498,6 +504,29 @@ def _gen_node(rng, pl, flavour, budget, block=B_REAL):
             es.append(("0", D([])))
         rng.shuffle(es)
         return D(es)
+    if flavour == "names":
+        # the aimed name groups of trees.add_aimed_names (decomposed Unicode next to a sibling that sorts between the decomposed
+        # and the composed spelling, glob metacharacters in directory and file names, mixed-case siblings) on top of a few files
+        flat = {(n,): None for n in names(FILE_NAMES, rng.randrange(0, 3))}
+        if rng.random() < 0.4:
+            flat[(rng.choice(DIR_NAMES), rng.choice(FILE_NAMES))] = None
+        groups = list(trees.NAME_GROUPS) if rng.random() < 0.5 else \
+            ([g for g in trees.NAME_GROUPS if rng.random() < 0.6] or [rng.choice(trees.NAME_GROUPS)])
+        trees.add_aimed_names(rng, flat, pl, groups, budget=0)        # only the names are taken: the sizes are drawn below
+        if not flat:
+            flat[("a",)] = None
+        root = {}
+        for comps in flat:
+            d = root
+            for c in comps[:-1]:
+                d = d.setdefault(c, {})
+            d[comps[-1]] = fnode()
+
+        def conv_(d):
+            es = [(n, c if isinstance(c, list) else conv_(c)) for n, c in d.items()]
+            rng.shuffle(es)
+            return D(es)
+        return conv_(root)
     if flavour == "case":
         # names that differ only in letter case (legal on a case-sensitive filesystem)
         es = [(n, fnode()) for n in names(["readme", "README", "Readme", "ReadMe"], rng.randrange(2, 5))]
@@ -532,7 +561,7 @@ def files_of_dict(d):
     return [1 for v in d.values() if isinstance(v, list)] + [x for v in d.values() if isinstance(v, dict) for x in files_of_dict(v)]
 
 
-FLAVOURS = ["single", "flat", "nested", "order", "identical", "multi", "emptydir", "case", "nested"]
+FLAVOURS = ["single", "flat", "nested", "order", "identical", "multi", "emptydir", "case", "nested", "names"]
 
 _ROOTS = {}
 
@@ -599,6 +628,7 @@ def classify(node, pl, block=B_REAL):
         cl.add("non-ASCII name")
     if fl and tree_order and by_rel[tree_order[-1]][0] == 0:
         cl.add("empty file last")
+    cl |= trees.classify_names({rel: None for rel, _, _ in fl})       # decomposed names, glob metacharacters, case / NFC order
     return cl
 
 
